@@ -152,8 +152,8 @@ CHECKS = {
              "random values through coerce_in/coerce_as/in/as<Rep>, the six comparisons, point - point, point +- quantity, quantity + point; every "
              "disagreement and a sample (incl. all equal-position pairs) is re-derived by TLC from the raw inputs and the descriptors; 18 "
              "operations without affine meaning must be rejected (8 twins compile).",
-        note="Claims exactness only where the exact image is an integer in range and the reduced affine numerators fit the reps (a conservative "
-             "reading of 'intermediate displacement representable').  Layer A for points is C10's fold/gcd model.",
+        note="Claims exactness only where the exact image is an integer in range and the intermediates in the library's common point unit (read out, "
+             "C10's subject) fit the calculation rep.  Layer A: PointPipeline.tla (the in<NewRep>(unit) pipeline on the scaled machine).",
         technique="TLC-emitted affine contracts swept against the real QuantityPoint operations, adjudicated by TLC (BigInt rationals) + failing probes", ref="6/C09"),
     "C18": dict(
         text="Labels.tla is the label grammar as TLA+ string operators over the unit types of Units.tla (named / prefixed / scaled / power / "
